@@ -5,6 +5,7 @@ import Model.Dispatch
 import Model.CrashValue
 import Model.PrepLife
 import Model.EventFlow
+import Model.ConnSetup
 import Driver.Util
 namespace Driver.C05
 open Util
@@ -155,7 +156,11 @@ def step (_ : Unit) (ws : List String) : Unit × String :=
                  -- evt / evtinv <cfg> <rounds>: Model/EventFlow.lean (frames on stream -1, every Events configuration)
                  match EventFlow.answer ws with
                  | some a => a
-                 | none => "bad-op")
+                 | none =>
+                   -- hs <auth> <ks> <kinds>: Model/ConnSetup.lean (connection set-up as a sequence of answers)
+                   match ConnSetup.answer ws with
+                   | some a => a
+                   | none => "bad-op")
 
 def init : Unit := ()
 end Driver.C05
